@@ -311,7 +311,7 @@ Inductive case :=
   | CStep (fs : fsor) (current : list entry) (ages : list N) (desired : list entry) (unstable : bool)
           (changes : list change) (made : list change) (saved : list entry).
 
-Definition mismatch (c : case) : bool :=
+Definition tie_mismatch (c : case) : bool :=
   match c with
   | CStep fs cur _ des unstable chs made saved =>
       (negb unstable && negb (changes_eqb (needed_changes fs cur des) chs)) ||
@@ -356,48 +356,70 @@ Fixpoint mount_order_ok (ms : list entry) : bool :=
       forallb (fun p => negb (beq (x_origin c) (x_origin p) && beneath c p)) later && mount_order_ok later
   end.
 
-(* the hypotheses under which the property is stated, evaluated on the case *)
+(* a desired entry is shadowed when a different helper entry of the current profile sits on its (dir, type): reuse
+   is keyed by (dir, type) only, so if that helper is reused the desired entry is neither mounted nor recorded
+   (KNOWN_FINDINGS key desired-shadowed-by-helper) *)
+Definition shadowed (ids : list bytes) (cur : list entry) (d : entry) : bool :=
+  existsb (fun c => is_helper ids c && id_eqb (id_of c) (id_of d) && negb (entry_eqb c d)) cur.
+
+(* the hypotheses under which the property is stated, evaluated on the case (the absence of shadowed entries is
+   NOT among them: the monitor reports that class) *)
 Definition hyps (fs : fsor) (cur des : list entry) : bool :=
-  let ids := map x_entry_id des in
   distinct_b (map e_dir des) &&
   distinct_ids (map id_of cur) &&
-  (* a desired entry does not sit on the (dir, type) of a different helper entry of the current profile *)
-  forallb (fun d => forallb (fun c => negb (is_helper ids c && id_eqb (id_of c) (id_of d) && negb (entry_eqb c d))) cur) des &&
   (* mount targets that exist are closed under containment: if the target of a desired entry exists in the form
      needed then so do the targets of the desired entries of the same origin above it *)
   forallb (fun c => forallb (fun p => negb (beq (x_origin c) (x_origin p) && beneath c p && exists_as fs c &&
                                             negb (exists_as fs p) && negb (is_overname p))) des) des.
 
+(* the property's conclusion on an observed change list; des_expect = the desired entries that must be present *)
+Definition step_ok (cur des des_expect : list entry) (chs : list change) : bool :=
+  let ids := map x_entry_id des in
+  (* applying the changes to the current table works and yields the desired entries plus helpers *)
+  match apply_changes cur chs with
+  | None => false
+  | Some tbl =>
+      match (fix diff (a b : list entry) : option (list entry) :=
+               match a with
+               | [] => Some b
+               | x :: r => match remove_first (entry_eqb x) b with Some b' => diff r b' | None => None end
+               end) des_expect tbl with
+      | Some extra => forallb (fun x => is_helper ids x && existsb (entry_eqb x) cur) extra
+      | None => false
+      end
+  end &&
+  (* unchanged entries not beneath a changed one are kept *)
+  forallb (fun c0 =>
+             negb (existsb (entry_eqb c0) des &&
+                   negb (existsb (fun p => negb (is_helper ids p) && negb (existsb (entry_eqb p) des) && beneath c0 p) cur))
+             || existsb (entry_eqb c0) (keeps_of chs)) cur &&
+  unmount_order_ok cur (unmounts_of chs) &&
+  mount_order_ok (mounts_of chs).
+
+(* the full property: every desired entry present *)
 Definition monitor_fail (c : case) : bool :=
   match c with
   | CStep fs current ages desired _ chs _ _ =>
       let cur := map clean_entry current in
       let des := map clean_entry desired in
-      let ids := map x_entry_id des in
-      hyps fs cur des &&
-      negb (
-        (* applying the changes to the current table works and yields the desired entries plus helpers *)
-        match apply_changes cur chs with
-        | None => false
-        | Some tbl =>
-            sub_multiset des tbl &&
-            match (fix diff (a b : list entry) : option (list entry) :=
-                     match a with
-                     | [] => Some b
-                     | x :: r => match remove_first (entry_eqb x) b with Some b' => diff r b' | None => None end
-                     end) des tbl with
-            | Some extra => forallb (fun x => is_helper ids x && existsb (entry_eqb x) cur) extra
-            | None => false
-            end
-        end &&
-        (* unchanged entries not beneath a changed one are kept *)
-        forallb (fun c0 =>
-                   negb (existsb (entry_eqb c0) des &&
-                         negb (existsb (fun p => negb (is_helper ids p) && negb (existsb (entry_eqb p) des) && beneath c0 p) cur))
-                   || existsb (entry_eqb c0) (keeps_of chs)) cur &&
-        unmount_order_ok cur (unmounts_of chs) &&
-        mount_order_ok (mounts_of chs))
+      hyps fs cur des && negb (step_ok cur des des chs)
   end.
+
+(* the same with the shadowed desired entries that are in fact absent taken out of what must be present: a case that
+   fails this fails for a reason other than the recorded shadowing. Folded into the correspondence verdict so that
+   the known-finding key cannot hide it. *)
+Definition relaxed_fail (c : case) : bool :=
+  match c with
+  | CStep fs current ages desired _ chs _ _ =>
+      let cur := map clean_entry current in
+      let des := map clean_entry desired in
+      let ids := map x_entry_id des in
+      let present := keeps_of chs ++ mounts_of chs in
+      let expect := filter (fun d => negb (shadowed ids cur d && negb (existsb (entry_eqb d) present))) des in
+      existsb (shadowed ids cur) des && hyps fs cur des && negb (step_ok cur des expect chs)
+  end.
+
+Definition mismatch (c : case) : bool := tie_mismatch c || relaxed_fail c.
 
 (* --- the unmount order over whole histories ---
    One update step of a history, reduced to what the sentence [no entry is unmounted before an entry that was
